@@ -104,7 +104,7 @@ static const family EXTRA[] = {
 static const family *FAM (int i) { return i < NEXTRA ? &EXTRA[i] : &FAMILIES[i - NEXTRA]; }
 static int defined_by_construction (int i) { return i < NEXTRA; } /* refinterp does not model data sections: these programs avoid unspecified behaviour by construction */
 
-static uint64_t fam_first[NALL + 1]; static int fam_lo = 0, fam_hi = NALL;
+static uint64_t fam_first[NALL + 1]; static int fam_lo = 0, fam_hi = NALL; static int ord[NALL], n_ord;
 static char workdir[300] = "/tmp"; static int opt_levels[4], n_opts; static uint64_t batch_size = 300;
 
 void drv_init (int thorough) {
@@ -114,13 +114,17 @@ void drv_init (int thorough) {
   const char *ol = getenv ("VP_C20_OPT"); if (!ol) ol = "1";
   for (const char *p = ol; *p && n_opts < 4; p++) if (*p >= '0' && *p <= '3') opt_levels[n_opts++] = *p - '0';
   const char *bs = getenv ("VP_C20_BATCH"); if (bs) batch_size = strtoull (bs, NULL, 10);
-  fam_first[fam_lo] = 0;
-  /* variables tied to hard registers have no C counterpart in the translator and are not in the property's program class: that family is left out */
-  for (int i = fam_lo; i < fam_hi; i++) fam_first[i + 1] = fam_first[i] + (strstr (FAM (i)->name, "hard-register") ? 0 : FAM (i)->count (thorough));
+  /* variables tied to hard registers have no C counterpart in the translator and are not in the property's program class: that family is left out.
+     Families are enumerated smallest first, so that a deadline (thorough tier) cuts only the largest ones */
+  n_ord = 0; for (int i = fam_lo; i < fam_hi; i++) ord[n_ord++] = i;
+#define FCOUNT(i) (strstr (FAM (i)->name, "hard-register") ? 0 : FAM (i)->count (thorough))
+  for (int i = 1; i < n_ord; i++) for (int j = i; j > 0 && FCOUNT (ord[j]) < FCOUNT (ord[j - 1]); j--) { int t = ord[j]; ord[j] = ord[j - 1]; ord[j - 1] = t; }
+  fam_first[0] = 0;
+  for (int i = 0; i < n_ord; i++) fam_first[i + 1] = fam_first[i] + FCOUNT (ord[i]);
 }
-uint64_t drv_ncases (void) { return fam_first[fam_hi]; }
+uint64_t drv_ncases (void) { return fam_first[n_ord]; }
 static const family *locate (uint64_t idx, uint64_t *local, int *fi) {
-  for (int i = fam_lo; i < fam_hi; i++) if (idx < fam_first[i + 1]) { *local = idx - fam_first[i]; if (fi) *fi = i; return FAM (i); }
+  for (int i = 0; i < n_ord; i++) if (idx < fam_first[i + 1]) { *local = idx - fam_first[i]; if (fi) *fi = ord[i]; return FAM (ord[i]); }
   return NULL;
 }
 void drv_describe (uint64_t idx, char *buf, size_t n) {
